@@ -16,4 +16,9 @@ theorem v0_complete_safe : ∀ s, Reach (sys ScopeV0.cfgComplete) s → safeQ Sc
 theorem v0_cleanup_safe : ∀ s, Reach (sys ScopeV0.cfgCleanup) s → safeQ ScopeV0.cfgCleanup s = true :=
   safe_of_check _ { coded with M := 251 } 400 _ (by decide +kernel)
 
+/-- admission racing the close of an empty scope: the spawn is either admitted before the close (and complete() waits
+    for it) or rejected and never started -/
+theorem v0_spawn_race_safe : ∀ s, Reach (sys ScopeV0.cfgSpawnRace) s → safeQ ScopeV0.cfgSpawnRace s = true :=
+  safe_of_check _ { coded with M := 251 } 400 _ (by decide +kernel)
+
 end Unifex.Props.C08_v0
